@@ -139,3 +139,33 @@ Proof.
   unfold elem_node. cbn [an_attrs]. rewrite merge_attributes_spec. unfold attrs_opt.
   destruct (written_mentions e); reflexivity.
 Qed.
+
+(* ---------------------------------------------------------------- groups: the element is a unit of C01_parse_groups *)
+Theorem elem_group_unit jsx pos e :
+  selem_ok e -> jsx_ok jsx e -> unit_toks jsx (GE (elem_leaf pos e)) (elem_toks pos e).
+Proof. intros H Hj. apply ut_elem. apply elem_gblock; assumption. Qed.
+
+(* `(a.x>b[c=1])*2+d#e` as tokens: a group of two attribute elements, repeated, then a sibling *)
+Example group_of_attribute_elements :
+  let a := mkSElem [97%N] [PClass [120%N]] None false in
+  let b := mkSElem [98%N] [PSet [mkSAttr false [99%N] false (SUnq [49%N])]] None false in
+  let d := mkSElem [100%N] [PId [101%N]] None false in
+  let br o p := mkTok (TBracket o BGroup) p (p + 1) in
+  let op o p := mkTok (TOperator o) p (p + 1) in
+  let rp := mkTok (TRepeater 2 0 false) 13 15 in
+  gflat false
+    [(GG [(GE (elem_leaf 1 a), SChild); (GE (elem_leaf 5 b), SSibling)] (Some (mkRep 2 0 false)), SSibling);
+     (GE (elem_leaf 16 d), SSibling)]
+    ((br true 0 :: (elem_toks 1 a ++ [op OpChild 4] ++ elem_toks 5 b) ++ br false 12 :: [rp]) ++ [op OpSibling 15] ++ elem_toks 16 d).
+Proof.
+  cbv zeta.
+  assert (Hw : forall c, is_element_name c = true -> word_ok [c]) by (intros c H; split; [discriminate|repeat constructor; exact H]).
+  apply gf_cons; [|apply ot_sibling; reflexivity|discriminate|].
+  - apply ut_group; [reflexivity|reflexivity| |apply rt_some; reflexivity].
+    apply gf_cons; [apply elem_group_unit; [|left; reflexivity]|apply ot_child; reflexivity|discriminate|].
+    + split; [apply Hw; reflexivity|]. split; [|exact I]. repeat constructor; discriminate.
+    + apply gf_last. apply elem_group_unit; [|left; reflexivity].
+      split; [apply Hw; reflexivity|]. split; [|exact I]. repeat constructor; try discriminate.
+  - apply gf_last. apply elem_group_unit; [|left; reflexivity].
+    split; [apply Hw; reflexivity|]. split; [|exact I]. repeat constructor; discriminate.
+Qed.
